@@ -278,7 +278,7 @@ loop:
 	return r, events, bps
 }
 
-var markRe = regexp.MustCompile(`^\s*fmt\.Print(?:ln|f)\("([pbe]\d+)[ "%\\]`)
+var markRe = regexp.MustCompile(`^\s*fmt\.Print(?:ln|f)\("([pbe]\d+)[ "%\\]|^var gMk\d+ = initMark\("(p\d+)"`)
 
 // markerLines maps source line → marker label for single-line print
 // statements: pN (print statements), bN (end-of-block prints) and eN (function
@@ -289,8 +289,9 @@ func markerLines(src string) map[int]string {
 	count := map[string]int{}
 	for i, l := range strings.Split(src, "\n") {
 		if mm := markRe.FindStringSubmatch(l); mm != nil {
-			m[i+1] = mm[1]
-			count[mm[1]]++
+			lab := mm[1] + mm[2]
+			m[i+1] = lab
+			count[lab]++
 		}
 	}
 	for l, lab := range m {
@@ -300,6 +301,9 @@ func markerLines(src string) map[int]string {
 	}
 	return m
 }
+
+// nestedCallRe matches a call of a generated function.
+var nestedCallRe = regexp.MustCompile(`\bfn\d+\(`)
 
 var funcRe = regexp.MustCompile(`^func (main|fn\d+)\(.*\{$`)
 
@@ -320,6 +324,46 @@ func injectEntry(src string) string {
 		}
 	}
 	return strings.Join(out, "\n")
+}
+
+// injectGlobals adds n package-level variables whose initialiser, on one line,
+// prints a marker through a helper: a line breakpoint on such a line is
+// reported when the package is initialised, before the marker. The first one,
+// when there are several, refers to the second one, so that the lines do not
+// execute in source order.
+func injectGlobals(src string, n int) string {
+	if n == 0 || !strings.Contains(src, "\t\"fmt\"\n") {
+		return src
+	}
+	var out []string
+	done := false
+	for _, l := range strings.Split(src, "\n") {
+		if !done && strings.HasPrefix(l, "func ") {
+			done = true
+			out = append(out, "func initMark(s string, v int) int {", "\tfmt.Println(s, \"init\", v)", "\treturn v + 1", "}", "")
+			for k := 0; k < n; k++ {
+				arg := fmt.Sprint(k)
+				if k == 0 && n > 1 {
+					arg = "gMk1"
+				}
+				out = append(out, fmt.Sprintf("var gMk%d = initMark(\"p%d\", %s)", k, 9000+k, arg))
+			}
+			out = append(out, "")
+		}
+		out = append(out, l)
+	}
+	return strings.Join(out, "\n")
+}
+
+// globalMarksEnd is the line of func main: the injected package-level
+// initialisers are above it.
+func globalMarksEnd(src string) int {
+	for i, l := range strings.Split(src, "\n") {
+		if strings.HasPrefix(l, "func main(") {
+			return i + 1
+		}
+	}
+	return 0
 }
 
 // entryLines maps the name of a function whose first statement is an entry
@@ -411,13 +455,23 @@ func (c *Case) check() (string, string, map[string]int) {
 			stats["fbp-valid"]++
 		}
 	}
-	labels := map[string]bool{}
+	// A marker line whose operands call a generated function starts executing,
+	// and is reported, before the markers of that function, and prints its own
+	// marker after them: such lines are left out of the sequence comparison and
+	// keep the per-line rules (one report per execution, before its marker).
+	labels, nested, simple := map[string]bool{}, map[string]bool{}, map[string]bool{}
+	srcLines := strings.Split(c.Src, "\n")
 	for l, lab := range marks {
 		if bpLine[l] {
 			labels[lab] = true
+			if l-1 < len(srcLines) && nestedCallRe.MatchString(srcLines[l-1]) {
+				nested[lab] = true
+			} else {
+				simple[lab] = true
+			}
 		}
 	}
-	want := markerSeq(p.stdout, labels)
+	want := markerSeq(p.stdout, simple)
 	var got []string
 	hits := map[int]int{}
 	lastPrinted := map[string]int{}
@@ -437,8 +491,17 @@ func (c *Case) check() (string, string, map[string]int) {
 					stats["duplicate-break-report"]++
 					continue
 				}
+				if _, seen := lastPrinted[lab]; seen && ev.line < globalMarksEnd(c.Src) && strings.HasPrefix(lab, "p9") && len(lab) == 5 {
+					// a package-level initialiser runs once and prints its marker
+					// inside the helper it calls: the line may be reported again
+					// when the helper returns
+					stats["duplicate-break-report"]++
+					continue
+				}
 				lastPrinted[lab] = printed
-				got = append(got, lab)
+				if !nested[lab] {
+					got = append(got, lab)
+				}
 				if printed != len(gotPer[lab]) {
 					return "break-tracking", fmt.Sprintf("break-timing: break #%d on line %d (%s) arrived when %d of its markers were already printed", len(gotPer[lab])+1, ev.line, lab, printed), stats
 				}
@@ -466,6 +529,29 @@ func (c *Case) check() (string, string, map[string]int) {
 	}
 	if strings.Join(want, ",") != strings.Join(got, ",") {
 		return "break-tracking", fmt.Sprintf("break-sequence: markers executed on breakpoint lines: %v; break events reported: %v", clipSeq(want), clipSeq(got)), stats
+	}
+	// the return statement of the injected helper executes once per call: a
+	// breakpoint on its line is reported as many times as the helper prints
+	for i, l := range srcLines {
+		if l == "\treturn v + 1" && i > 1 && strings.HasPrefix(srcLines[i-2], "func initMark(") && bpLine[i+1] {
+			calls := 0
+			for _, ol := range strings.Split(p.stdout, "\n") {
+				if len(ol) > 10 && strings.HasPrefix(ol, "p9") && strings.HasPrefix(ol[5:], " init ") {
+					calls++
+				}
+			}
+			if hits[i+1] != calls {
+				return "break-tracking", fmt.Sprintf("break-count: the return statement on breakpoint line %d executed %d times and was reported %d times", i+1, calls, hits[i+1]), stats
+			}
+			stats["return-line-breaks"] += calls
+		}
+	}
+	for lab := range nested {
+		n, w := len(gotPer[lab]), len(markerSeq(p.stdout, map[string]bool{lab: true}))
+		if n != w && !(p.errClass == "panic" && n == w+1) {
+			return "break-tracking", fmt.Sprintf("break-count: marker %s, on a breakpoint line calling a function, was printed %d times and its line reported %d times", lab, w, n), stats
+		}
+		stats["nested-marker-breaks"] += n
 	}
 	stats["marker-breaks"] = len(got)
 	for _, n := range hits {
@@ -517,7 +603,7 @@ func config(ctx *vf.Ctx) *progen.Config {
 
 func genCase(t *rapid.T, cfg *progen.Config) *Case {
 	p := progen.Generate(t, cfg)
-	p.Src = injectEntry(p.Src)
+	p.Src = injectGlobals(injectEntry(p.Src), rapid.IntRange(0, 3).Draw(t, "globalmarks"))
 	c := &Case{Src: p.Src}
 	nlines := strings.Count(p.Src, "\n")
 	mainLine := 1
